@@ -180,6 +180,19 @@ def check(prop, tier="quick", seed=0):
         print(f"ERROR: no contracts or lemmas registered for {prop}")
         return 3
     results = run_items(items)
+    # items with an obligation that is not discharged are re-examined once, serially and with a 3x time budget, so
+    # that a verdict never depends on how busy the machine was (a timeout must not turn into an alarm)
+    redo = [i for i, r in enumerate(results) if r["error"] or any(o["status"] != "discharged" for o in r["obligations"])]
+    if redo and len(redo) <= 40:
+        from symjnp import engine as _eng
+        old = _eng.TSCALE
+        _eng.TSCALE = old * 3
+        try:
+            for i in redo:
+                results[i] = _work(items[i])
+                results[i]["retried"] = True
+        finally:
+            _eng.TSCALE = old
     known = load_known()
     obligations = [dict(o, item=f"{r['name']}[{r['label']}]" if r["label"] else r["name"]) for r in results for o in r["obligations"]]
     errors = [r for r in results if r["error"]]
@@ -208,6 +221,21 @@ def check(prop, tier="quick", seed=0):
         path = RP.write_replay(prop, o, seed=seed)
         tail = "" if RP.last_confirmed(path) else " no-failing-input-found"
         vio_lines.append(f"VIOLATION property={prop} replay={path} obligation=\"{o['name']}\"{tail}")
+    # undecided obligations (solver gave up): the same harness is run natively on the real code; a native disagreement
+    # with the spec is a violation with a replayable input -- if none is found the obligation stays undecided (exit 2)
+    still_unknown, seen_items = [], set()
+    for o in unknown:
+        if o.get("item") in seen_items or len(seen_items) >= 12:
+            still_unknown.append(o)
+            continue
+        seen_items.add(o.get("item"))
+        path = RP.write_replay(prop, o, seed=seed)
+        if RP.last_confirmed(path):
+            violations.append(o)
+            vio_lines.append(f"VIOLATION property={prop} replay={path} obligation=\"{o['name']}\" (undecided by the solver, failing input found natively)")
+        else:
+            still_unknown.append(o)
+    unknown = still_unknown
     # tool limits (code outside the modelled subset): bounded stand-in -- the native battery of the same harness on the
     # real code; a native disagreement with the spec is a violation with a replayable input, a pass proves nothing
     standins = []
